@@ -242,14 +242,14 @@ class Ctx:
         return r, s
 
     def feasible(self, cond):
-        """Over-approximate satisfiability: only the quantifier-free assumptions are used
-        (finding models of quantified axioms is what z3 is slow at); an infeasible path that
+        """Over-approximate satisfiability.  Quantified assumptions are used by E-matching
+        only (mbqi off): z3 then answers unsat or unknown quickly instead of searching for a
+        model of the quantified axioms; unknown counts as feasible.  An infeasible path that
         is explored anyway only yields obligations that hold vacuously."""
-        s = z3.Solver()
+        s = z3.SimpleSolver()
         s.set("timeout", int(self.feas_timeout_ms))
-        for a in self.assumptions:
-            if not has_quantifier(a):
-                s.add(a)
+        s.set("smt.mbqi", False)
+        s.add(*self.assumptions)
         s.add(cond)
         t0 = time.time()
         r = s.check()
